@@ -25,8 +25,10 @@ theorem C10_translate_once (cfg : ECfg) (al : List (Str × Val)) (f id : Nat) (n
     (hs : s2.streams = body :: top :: rest)
     (hne : (stripStr (collapseWsStr body)).isEmpty = false) :
     ∃ s3, eval cfg al (f + 1) (.translate id none node) s = .ok () s3 ∧
-      s3.x.tlog = s2.x.tlog.push ⟨stripStr (collapseWsStr body), tMapping (tNames node) s2, some (stripStr (collapseWsStr body)),
-        s2.env.topFrame.domain, s2.env.topFrame.context, tTarget s2⟩ ∧
+      s3.x.tlog = s2.x.tlog.push {
+        msgid := stripStr (collapseWsStr body), mapping := tMapping (tNames node) s2,
+        dflt := some (stripStr (collapseWsStr body)), domain := s2.env.topFrame.domain, context := s2.env.topFrame.context,
+        target := tTarget s2 } ∧
       s3.streams = (top ++ simpleTranslate cfg.tc.rx (stripStr (collapseWsStr body)) (tMapping (tNames node) s2)
         (some (stripStr (collapseWsStr body)))) :: rest := by
   unfold tEnter tNames at hb
@@ -44,8 +46,9 @@ theorem C10_translate_explicit (cfg : ECfg) (al : List (Str × Val)) (f id : Nat
     (hb : eval cfg al f node (tEnter (tNames node) s) = .ok () s2)
     (hs : s2.streams = body :: top :: rest) :
     ∃ s3, eval cfg al (f + 1) (.translate id (some m) node) s = .ok () s3 ∧
-      s3.x.tlog = s2.x.tlog.push ⟨m, tMapping (tNames node) s2, some (stripStr (collapseWsStr body)),
-        s2.env.topFrame.domain, s2.env.topFrame.context, tTarget s2⟩ ∧
+      s3.x.tlog = s2.x.tlog.push {
+        msgid := m, mapping := tMapping (tNames node) s2, dflt := some (stripStr (collapseWsStr body)),
+        domain := s2.env.topFrame.domain, context := s2.env.topFrame.context, target := tTarget s2 } ∧
       s3.streams = (top ++ simpleTranslate cfg.tc.rx m (tMapping (tNames node) s2) (some (stripStr (collapseWsStr body)))) :: rest := by
   unfold tEnter tNames at hb
   simp only [eval, bind, mModify, pushStream, hb, popStream, hs, mGet, liftX, callTranslate, emit]
